@@ -1261,6 +1261,15 @@ def m_to_string(ex, m, args, callee):
         return '<%s::%s>' % (t.ty, t.vname)      # stands for the Display text of a field-less enum (unique per variant)
     if isinstance(t, int) and not isinstance(t, bool) and re.match(r'^<(u|i)(8|16|32|64|128|size) as ToString>', m.group(0) or ''):
         return str(t)
+    # the decimal text of a big integer: concrete when the value is, else a piece that keeps the value readable
+    inner = t
+    while isinstance(inner, Struct) and len(inner.fields) == 1 and inner.name in ('BigInt', 'NumInt'):
+        inner = deref_all(inner.fields[0])
+    if inner is not t:
+        if is_conc(inner) and not isinstance(inner, bool):
+            return str(int(inner))
+        if is_z3(inner) and z3.is_int(inner):
+            return Opaque('string', ('pieces', [('display', inner)]))
     return Opaque('string', 'to_string')
 
 
